@@ -222,15 +222,26 @@ def _frames_of(tb):
     return out
 
 
+_HERE = os.path.dirname(os.path.abspath(__file__))
+_SEAMS = os.path.join(_HERE, "seams") + os.sep
+
+
 def exception_origin(exc):
-    """'lena' if the innermost frame of the traceback lies in the lena
-    under test, 'harness' otherwise."""
+    """Who is responsible for an exception: walk the traceback from the innermost frame
+    outwards, skipping the seams (they answer calls the way the environment would: an OSError
+    from the simulated disk, a TypeError for bytes written to a text file, a probe object that
+    refuses to be formatted) and the standard library; the first frame that lies in the lena
+    under test means 'lena', one in the property modules or the kernel means 'harness'."""
     files = _frames_of(exc.__traceback__)
-    if not files:
-        return "harness"
-    inner = os.path.abspath(files[-1])
-    if inner.startswith(LENA_REPO + os.sep):
-        return "lena"
+    for fn in reversed(files):
+        fn = os.path.abspath(fn)
+        if fn.startswith(_SEAMS):
+            continue
+        if fn.startswith(LENA_REPO + os.sep):
+            return "lena"
+        if fn.startswith(_HERE + os.sep):
+            return "harness"
+        # standard library / third party: keep walking outwards
     return "harness"
 
 
